@@ -709,10 +709,14 @@ class ErrDomain(Domain):
         smin, _ = self._mag(out)
         with np.errstate(all="ignore"):
             same_sign = ((A.lo >= 0) & (B.lo >= 0)) | ((A.hi <= 0) & (B.hi <= 0))
-            prop = np.where(same_sign, np.maximum(ra, rb), ((ra * amax + rb * bmax) / smin).astype(np.float64))
-            prop = np.where((ra == 0) & (rb == 0), 0.0, prop)
+            mild = same_sign | ((smin > 0) & ((amax + bmax) <= 4 * smin))
+            # without serious cancellation the operand errors stay relative; otherwise they are carried as an absolute error
+            rel_mild = np.where(same_sign, np.maximum(ra, rb), ((ra * amax + rb * bmax) / np.where(smin > 0, smin, 1)).astype(np.float64))
+            rel_mild = np.where((ra == 0) & (rb == 0), 0.0, rel_mild)
+            rel = np.where(mild, rel_mild, 0.0)
+            abe = np.where(mild, aa + ab, ra * amax + rb * bmax + aa + ab)
         # the sum of two floats is exact when it is subnormal: no eta term
-        return self._set(out, prop * (1 + self.u) + self.u, (aa + ab) * (1 + self.u))
+        return self._set(out, rel * (1 + self.u) + self.u, abe * (1 + self.u))
 
     def mul(self, A, B):
         out = super().mul(A, B)
@@ -724,7 +728,13 @@ class ErrDomain(Domain):
             abe = amax * ab + bmax * aa + aa * ab
             abe = np.where((aa == 0) & (ab == 0), np.longdouble(0.0), abe)
             abe = abe + np.where(omin < self.small, self.eta, np.longdouble(0.0))
-        return self._set(out, (ra + rb + ra * rb) * (1 + self.u) + self.u, abe)
+            # scaling by a power of two is exact (up to underflow, covered by eta)
+            pow2 = np.zeros(np.shape(omin), dtype=bool)
+            for S in (A, B):
+                m, _ = np.frexp(np.abs(S.lo.astype(np.float64)))
+                pow2 = pow2 | ((S.lo == S.hi) & (m == 0.5) & (self._e(S)[0] == 0))
+            round_u = np.where(pow2, 0.0, self.u)
+        return self._set(out, (ra + rb + ra * rb) * (1 + round_u) + round_u, abe)
 
     def div(self, A, B):
         out = super().div(A, B)
@@ -822,15 +832,22 @@ class ErrDomain(Domain):
         ymin, ymax = self._mag(Y)
         xmin, xmax = self._mag(X)
         with np.errstate(all="ignore"):
-            # d(theta) = (x dy - y dx) / (x^2 + y^2); the relative parts give at most (rx + ry) |theta|
+            # d(theta) = (x dy - y dx) / (x^2 + y^2) with dy = ry |y| + ay, dx = rx |x| + ax
+            rel_part = ry + rx  # |x y| (rx + ry) / (x^2 + y^2) <= (rx + ry) |theta| ... kept relative
             abe = np.where((ay == 0) & (ax == 0), np.longdouble(0.0), (xmax * ay + ymax * ax) / (xmin * xmin + ymin * ymin))
-        return self._set(out, (ry + rx) * (1 + self.ulib) + self.ulib, abe)
+        return self._set(out, rel_part * (1 + self.ulib) + self.ulib, abe)
+
+    def _trig(self, A, out):
+        # an exact argument only suffers the library's own error; a perturbed argument of unknown size is not bounded here
+        ra, aa = self._e(A)
+        exact = (np.asarray(ra) == 0) & (np.asarray(aa) == 0)
+        return self._set(out, np.where(exact, self.ulib, self.BIG), 0.0)
 
     def sin(self, A):
-        return self._set(super().sin(A), self.BIG, 0.0)
+        return self._trig(A, super().sin(A))
 
     def cos(self, A):
-        return self._set(super().cos(A), self.BIG, 0.0)
+        return self._trig(A, super().cos(A))
 
     def join(self, A, B):
         out = super().join(A, B)
